@@ -110,7 +110,15 @@ ENUM_SWAPS = {
 IDENT_SWAPS = {"true": ["false"], "false": ["true"], "is_err": ["is_ok"], "is_ok": ["is_err"], "is_some": ["is_none"], "is_none": ["is_some"],
                "break": ["continue"], "continue": ["break"], "fetch_add": ["fetch_sub"], "fetch_max": ["fetch_min"], "min": ["max"], "max": ["min"],
                "blocking_send": ["try_send"], "unwrap_or": ["unwrap_or_default"], "killed": ["!killed"], "is_closed": ["is_empty"],
-               "strong_count": ["weak_count"], "saturating_add": ["wrapping_add"], "checked_add": ["wrapping_add"]}
+               "strong_count": ["weak_count"], "saturating_add": ["wrapping_add"], "checked_add": ["wrapping_add"],
+               # same-shape API swaps (second sweep)
+               "enable_time": ["enable_io"], "new_current_thread": ["new_multi_thread"], "blocking_recv": ["try_recv"],
+               "enable_all": ["enable_io"], "recv": ["try_recv"], "upgrade": ["clone"], "downgrade": ["clone"], "closed": ["reserve"],
+               "copied": ["cloned"], "take": ["clone"], "elapsed": ["duration_since"], "as_nanos": ["as_micros", "subsec_nanos"],
+               "from_nanos": ["from_micros"], "from_millis": ["from_secs"], "as_millis": ["as_secs"], "insert": ["remove"], "remove": ["get"],
+               "get": ["remove"], "len": ["capacity"], "is_empty": ["is_closed"], "try_send": ["blocking_send"], "try_with": ["with"],
+               "sync_scope": ["scope"], "identity": ["clone"], "unwrap": ["unwrap_or_default"], "ok": ["err"], "map": ["and_then"],
+               "Some": ["None"], "Ok": ["Err"], "Err": ["Ok"], "Ready": ["Pending"]}
 OP_SWAPS = {"==": ["!="], "!=": ["=="], ">=": [">"], "<=": ["<"], "&&": ["||"], "||": ["&&"], "+=": ["-="], "-=": ["+="]}
 
 
@@ -161,6 +169,10 @@ def gen_file(rel):
             v = int(t)
             for new in sorted({v + 1, 0 if v else 1} - {v}):
                 add(s, e, str(new), "num:%s->%d" % (t, new))
+    import re as _re
+    for m_ in _re.finditer(r"\bruntime\.block_on\(", src):
+        if m_.start() < tests_from:
+            add(m_.start(), m_.end(), "runtime.handle().block_on(", "api:handle-block_on")
     # whole-statement deletion: single-line expression statements
     off = 0
     for ln in src.split("\n"):
